@@ -154,11 +154,11 @@ Fixpoint has_suffix_rev (rs rn : bytes) : bool :=
 (* strings.HasSuffix *)
 Definition has_suffix (name suffix : bytes) : bool := has_suffix_rev (rev suffix) (rev name).
 
-(* a directory listing: (name, is a directory) *)
-Definition dirent := (bytes * bool)%type.
+(* a directory listing: (name, is a directory, size) *)
+Record dirent := mkDE { de_name : bytes; de_isdir : bool; de_size : N }.
 
 Definition snapshot_files (entries : list dirent) : list bytes :=
-  map fst (filter (fun e => negb (snd e) && has_suffix (fst e) snapshot_file_suffix) entries).
+  map de_name (filter (fun e => negb (de_isdir e) && has_suffix (de_name e) snapshot_file_suffix) entries).
 
 Inductive locate_result := LocOk (name : bytes) | LocPathNotExist | LocIncomplete.
 
@@ -230,7 +230,7 @@ Definition is_complete_image (file : bytes) (recorded : bytes) : complete_result
   end.
 
 (* ================================================================== *)
-(* getProcessedSnapshotRecord                                           *)
+(* paths                                                                *)
 
 Definition slash : N := 47.
 
@@ -257,6 +257,20 @@ Definition path_base (p : bytes) : bytes :=
    file name (what path_base returns for a path that is not empty, not all
    slashes and does not end in "." or ".."); the generators keep to these *)
 Definition path_join (dir name : bytes) : bytes := dir ++ [slash] ++ name.
+
+(* ================================================================== *)
+(* hasAllExternalFiles: every external file of the record is in srcDir, is
+   not a directory and has the recorded size                            *)
+
+Definition ext_file_present (entries : list dirent) (f : sfile) : bool :=
+  existsb (fun e => bytes_eqb (de_name e) (path_base (sf_path f)) && negb (de_isdir e) &&
+                    (de_size e =? sf_size f)) entries.
+
+Definition has_all_external_files (files : list sfile) (entries : list dirent) : bool :=
+  forallb (ext_file_present entries) files.
+
+(* ================================================================== *)
+(* getProcessedSnapshotRecord                                           *)
 
 Definition not_listed (members : amap) (ids : list N) : list N :=
   filter (fun id => negb (amem id members)) ids.
@@ -291,6 +305,7 @@ Inductive op :=
 | OLocate             (* getSnapshotFilepath *)
 | OReadMeta           (* getSnapshotRecord *)
 | OCheckComplete      (* isCompleteSnapshotImage *)
+| OCheckExtFiles      (* hasAllExternalFiles *)
 | OCheckMembers       (* checkMembers *)
 | ONewEnv             (* server.NewEnv: computes directory names, reads the host name *)
 | OCreateNodeHostDir  (* env.CreateNodeHostDir: MkdirAll *)
@@ -310,6 +325,7 @@ Definition op_code (o : op) : N :=
   | OCheckMembers => 4 | ONewEnv => 5 | OCreateNodeHostDir => 6 | OOpenLogDB => 7
   | OCheckNodeHostDir => 8 | OCleanup => 9 | OCreateSSDir => 10 | OCreateTemp => 11
   | OProcess => 12 | OCopy => 13 | OFinalize => 14 | OLogDBImport => 15
+  | OCheckExtFiles => 16
   end.
 Definition op_eqb (a b : op) : bool := op_code a =? op_code b.
 
@@ -326,6 +342,7 @@ Definition op_pos (o : op) : N :=
   match o with
   | OCheckSettings => pos_checkImportSettings | OLocate => pos_getSnapshotFilepath
   | OReadMeta => pos_getSnapshotRecord | OCheckComplete => pos_isCompleteSnapshotImage
+  | OCheckExtFiles => pos_hasAllExternalFiles
   | OCheckMembers => pos_checkMembers | ONewEnv => pos_NewEnv
   | OCreateNodeHostDir => pos_CreateNodeHostDir | OOpenLogDB => pos_getLogDB
   | OCheckNodeHostDir => pos_CheckNodeHostDir | OCleanup => pos_cleanupSnapshotDir
@@ -337,6 +354,7 @@ Definition op_guard (o : op) : bool :=
   match o with
   | OCheckSettings => guard_checkImportSettings | OLocate => guard_getSnapshotFilepath
   | OReadMeta => guard_getSnapshotRecord | OCheckComplete => guard_isCompleteSnapshotImage
+  | OCheckExtFiles => guard_hasAllExternalFiles
   | OCheckMembers => guard_checkMembers | ONewEnv => guard_NewEnv
   | OCreateNodeHostDir => guard_CreateNodeHostDir | OOpenLogDB => guard_getLogDB
   | OCheckNodeHostDir => guard_CheckNodeHostDir | OCleanup => guard_cleanupSnapshotDir
@@ -346,7 +364,7 @@ Definition op_guard (o : op) : bool :=
   end.
 
 Definition all_ops : list op :=
-  [OCheckSettings; OLocate; OReadMeta; OCheckComplete; OCheckMembers; ONewEnv;
+  [OCheckSettings; OLocate; OReadMeta; OCheckComplete; OCheckExtFiles; OCheckMembers; ONewEnv;
    OCreateNodeHostDir; OOpenLogDB; OCheckNodeHostDir; OCleanup; OCreateSSDir;
    OCreateTemp; OProcess; OCopy; OFinalize; OLogDBImport].
 
@@ -385,6 +403,7 @@ Inductive refusal :=
 | RMetaPanic
 | RImageErr                                (* GetV2PayloadChecksum failed *)
 | RIncompleteImage                         (* ErrIncompleteSnapshot: checksum differs *)
+| RIncompleteExt                           (* ErrIncompleteSnapshot: an external file is missing / has another size *)
 | RMembers (e : member_err)
 | REnv (o : op)                            (* an I/O error of step o *)
 | RBadProgram.                             (* a step ran before the step that provides its argument *)
@@ -436,6 +455,13 @@ Definition exec_op (inp : input) (st : state) (o : op) : state * option refusal 
       | ImageIncomplete => (st1, Some RIncompleteImage)
       | ImageErr => (st1, Some RImageErr)
       end
+    end
+  | OCheckExtFiles =>
+    match st_old st with
+    | None => (st1, Some RBadProgram)
+    | Some old =>
+      if has_all_external_files (s_files old) (in_entries inp) then (st1, env)
+      else (st1, Some RIncompleteExt)
     end
   | OCheckMembers =>
     match st_old st with
